@@ -493,7 +493,7 @@ impl Arm for C19 {
     }
     fn runs(&self, tier: Tier) -> u64 {
         match tier {
-            Tier::Quick => 200,
+            Tier::Quick => 1200,
             Tier::Thorough => 6000,
         }
     }
